@@ -67,6 +67,8 @@ typedef enum pd_code {
     PD_FINISHED = 0,
     PD_EOF = 1,
 } pd_code_e;
+#define UNBER_MAX_NESTING 1024
+
 static pd_code_e process_deeper(const char *fname, input_stream_t *,
                                 output_stream_t *os, int level,
                                 ssize_t limit, ber_tlv_len_t *frame_size,
@@ -141,6 +143,13 @@ process_deeper(const char *fname, input_stream_t *ibs, output_stream_t *os,
     ber_tlv_len_t tlv_len;
     ssize_t t_len;
     ssize_t l_len;
+
+    if(level > UNBER_MAX_NESTING) {
+        /* process_deeper() recurses once per nesting level */
+        fprintf(stderr, "%s: Nesting is deeper than %d levels, giving up\n",
+                fname, UNBER_MAX_NESTING);
+        return PD_FAILED;
+    }
 
     for(;;) {
         ber_tlv_len_t local_esize = 0;
